@@ -1462,6 +1462,40 @@ pub fn gen_workload_sized(rng: &mut Rng, small: bool) -> Workload {
             early: false,
         };
     }
+    // rarely: big values - a shared string variable of 0.6-1.8 MB concatenated four times by
+    // several threads at once (resource accounting by bytes, e.g. a budget or a pool that sums
+    // over all evaluations in flight, needs size x threads to show; every other workload uses
+    // values of a few bytes)
+    if !small && rng.percent(1) {
+        let len = rng.range(600_000, 1_800_000) as usize;
+        let mut setup = setup;
+        setup.vars.push(("big".to_string(), Value::String("x".repeat(len))));
+        let idx = trees.len();
+        let n = rng.range(3, 6);
+        return Workload {
+            trees,
+            assembled,
+            sources,
+            scripts,
+            setup,
+            values,
+            threads: (0..n)
+                .map(|_| {
+                    vec![
+                        TOp::EvalTree { tree: idx, ctx: CtxSel::Main, entry: 0 },
+                        TOp::EvalTree { tree: idx + 1, ctx: CtxSel::Main, entry: 0 },
+                    ]
+                })
+                .collect(),
+            extra_tree_sources: vec![
+                "len(big + big + big + big)".to_string(),
+                "len(big + big + big + big) + r(1)".to_string(),
+            ],
+            fresh: false,
+            cold: false,
+            early: false,
+        };
+    }
     let n_threads = if many_threads { rng.range(5, 8) } else { rng.range(2, 4) };
     let mut threads = Vec::new();
     for _ in 0..n_threads {
